@@ -221,6 +221,9 @@ func Normalize(dir, goarch string, tags []string) (map[string][]byte, []string) 
 			changed = n.condHoistRound()
 		}
 		if !changed {
+			changed = n.forCondRound()
+		}
+		if !changed {
 			changed = n.forPostRound()
 		}
 		if !changed {
